@@ -5,3 +5,4 @@ pub mod c10;
 pub mod c04;
 pub mod c06;
 pub mod c07;
+pub mod c08;
